@@ -13,22 +13,25 @@ MANIFEST = dict(
     text="PARTIAL. The unchanged code violates the property: C02_refuted (Coq, vm_compute witness "
          "['a',['b',('c','d')]] combined over a,b: the model of remove_inp_from_splitter_rpn turns the inner pair "
          "into an outer product and final_combined_ind_mapping gets spurious empty groups [[0,2],[],[],[1,3]]; "
-         "reproduced end to end, known finding F02). Proved for all inputs: C02_partition (whenever the model of "
-         "prepare_states_combined_ind returns groups, every job index occurs in exactly one group and members are "
-         "in enumeration order - no output lost or duplicated) and C02_partial (for every well-formed splitter whose "
-         "inner products are over plain fields, every combiner subset and all non-empty lists: if the computable "
-         "condition good_removalb holds - the axis bookkeeping finds exactly the linked fields and the RPN removal "
-         "returns the RPN of the pruned splitter - the model's groups are exactly the reference partition: one "
-         "group per distinct assignment of the remaining axes in order of first appearance, members in enumeration "
-         "order; C02_all, C02_linked). The negation of good_removalb is the classifier of F02. The model is tied to "
-         "State.final_combined_ind_mapping and to split().combine() outputs by generated cases evaluated in Coq.",
+         "reproduced at State level and end to end, known finding F02). Proved for all inputs: C02_partition "
+         "(whenever the model of prepare_states_combined_ind returns groups, every job index occurs in exactly one "
+         "group and members are in enumeration order - nothing lost, duplicated or reordered); C02_partial (every "
+         "splitter, every non-empty combiner, all non-empty inputs: if the computable condition good_removalb holds - "
+         "the axis bookkeeping finds exactly the linked fields and the RPN removal returns the RPN of the pruned "
+         "splitter - the groups are one per job of the remaining splitter, in its order, each holding in order the "
+         "jobs whose remaining fields equal it); C02_formulations_agree + C02_partial_flat (when inner products are "
+         "over plain fields this is exactly the property's partition: one group per distinct assignment of the "
+         "remaining axes in order of first appearance); C02_all, C02_linked. The negation of good_removalb is the "
+         "classifier of F02. The model is tied to State.final_combined_ind_mapping and to split().combine() "
+         "outputs by generated cases evaluated in Coq.",
     note="Trusted: Coq kernel + vm_compute; hand-written model of splits_groups/combine_final_groups (as far as "
-         "they decide combiner_all), remove_inp_from_splitter_rpn, prepare_states_combined_ind; rpn2splitter o "
-         "splitter2rpn round trip taken as the identity; the theorem is conditional on the computable good_removalb "
-         "(checked per case; its failure set over <=4 fields is the F02 class); nested inner products over "
-         "composite operands are covered by correspondence only.",
-    technique="Coq proof (partition by construction; projection of the lexicographic product = product of the "
-              "projections) + _refuted witness + model/impl correspondence via generated cases.v",
+         "they decide combiner_all and errors), remove_inp_from_splitter_rpn, prepare_states_combined_ind; "
+         "splitter2rpn o rpn2splitter taken as the identity; the positive theorems are conditional on the "
+         "computable good_removalb (evaluated per case); for inner products over composite operands the first-"
+         "appearance formulation is compared with the implementation by correspondence only.",
+    technique="Coq proof (partition by construction; compile-correctness reuse for the pruned splitter; dictionary "
+              "lookup on duplicate-free expansions; distinct(cart A B) = cart(distinct A)(distinct B)) + _refuted "
+              "witness + model/impl correspondence via generated cases.v",
     design="§8 Group A / C02",
 )
 TIE_NAME = "Model.State.prepare_combined vs State.prepare_states (final_combined_ind_mapping) and split().combine() outputs"
@@ -74,6 +77,14 @@ Definition spec_ok (c : case_t) : bool :=
   | _, _, _ => false
   end.
 Definition good_ok (c : case_t) : bool := let '(s, sh, comb, o) := c in good_removalb s comb.
+(* the two formulations of the reference agree on the case (proved for the flat/closed class: C02_formulations_agree) *)
+Definition same_ok (c : case_t) : bool :=
+  let '(s, sh, comb, o) := c in
+  match jobs (envof sh) s with
+  | None => true
+  | Some _ => option_eqb ll_eqb (spec_groups (envof sh) s comb) (spec_groups_pruned (envof sh) s comb)
+  end.
+Definition flat_ok (c : case_t) : bool := let '(s, sh, comb, o) := c in flat_innerb s && closedb (linked s comb) s.
 """
 F02 = "F02"
 
@@ -212,13 +223,17 @@ def run(ctx):
         cases.append(coqio.pair(G.to_coq(tree), G.coq_shapes(shapes), G.coq_nats(comb), coq_obs(o)))
         meta.append(m)
     res = coqio.run_cases(ctx.scratch, "c02", IMPORTS, "case_t", cases,
-                          {"tie": "tie_ok", "spec": "spec_ok", "good": "good_ok"}, extra=EXTRA, shard=250)
+                          {"tie": "tie_ok", "spec": "spec_ok", "good": "good_ok", "same": "same_ok", "flat": "flat_ok"},
+                          extra=EXTRA, shard=250)
     f02_class = set(res["good"])            # cases where good_removalb is false
     out = Outcome(evaluations=len(meta) + len(pyfail), distinct_nontrivial=nontrivial, rule=RULE,
                   samples=[sample(m) for m in pick(meta)], distribution=dist, traces_validated=len(meta),
                   exhaustive=(ctx.tier == "thorough"))
     out.extra["cases_inside_C02_partial_domain"] = len(meta) - len(f02_class)
     out.extra["cases_in_F02_class"] = len(f02_class)
+    not_flat = set(res["flat"])
+    out.extra["cases_inside_C02_partial_flat_domain"] = len([i for i in range(len(meta)) if i not in f02_class and i not in not_flat])
+    out.extra["cases_where_the_two_reference_formulations_differ"] = len(res["same"])
     out.extra["exhaustive_domain"] = ("every splitter tree over <=4 fields (canonical field order) x every length vector "
                                       "in 1..3 the split accepts x every non-empty combiner subset, State level"
                                       if ctx.tier == "thorough" else "sampled")
@@ -245,6 +260,11 @@ def run(ctx):
             note="groups differ from the ordered partition by the remaining axes (%s level)" % m["level"]))
         if len(out.failures) > 400:
             break
+    for i in res["same"][:5]:
+        m = meta[i]
+        if i not in not_flat:
+            out.failures.append(Failure(case=case_json(m), observed="spec_groups <> spec_groups_pruned inside the class of C02_formulations_agree",
+                                        expected=expected(ctx, m, "spec"), kind="tie", note="reference formulations differ"))
     n_tie = 0
     for i in res["tie"]:
         # inside the domain of C02_partial the model must agree; in the F02 class the implementation is compared with
